@@ -1341,6 +1341,9 @@ func (t *ftr) stdFunc(e *ast.CallExpr) (string, bool) {
 		if w, ok := be[strings.TrimPrefix(name, "Append")]; ok && strings.HasPrefix(name, "Append") && pre == "go_be" {
 			return "(" + arg(0) + " ++ go_put_be" + w + " " + t.exprAs(e.Args[1], tkind{k: "N", w: 64}) + ")", true
 		}
+	case full == "bytes.Compare" || full == "strings.Compare":
+		ensureCompareHelper()
+		return "(go_bytes_compare " + t.exprAs(e.Args[0], byteList) + " " + t.exprAs(e.Args[1], byteList) + ")", true
 	case full == "bytes.Equal":
 		usesGoList = true
 		return "(go_list_eqb N.eqb " + t.exprAs(e.Args[0], byteList) + " " + t.exprAs(e.Args[1], byteList) + ")", true
